@@ -27,7 +27,7 @@ RULES_DOC.update({
     "R4": "revive resets the unit before its single push and is guarded by a TERMINATED test at the API",
     "R5": "ABT_thread_exit / ABT_self_exit reach ABTI_ythread_exit on every non-error path",
 })
-VARIANTS = ["no_ext_thread", "active_wait"]
+VARIANTS = ["no_ext_thread", "active_wait", "tool_interface"]
 YH = "src/include/abti_ythread.h"
 
 SWITCHERS = {"ABTI_ythread_switch_to_sibling_internal", "ABTI_ythread_jump_to_sibling_internal",
